@@ -179,10 +179,11 @@ class RepeatedNodeWithInterleavingCommentsWrapper(properties.RepeatedNodeWrapper
                 continue
             if comment_set is not None:
                 comment_set.discard(id(item))
-            item.claimed = False
             unclaimed_comments.append(item)
         if comment_set:
             raise ValueError(f'{len(comment_set)} comment(s) not found.')
+        for comment in unclaimed_comments:
+            comment.claimed = False
         self._repeated.items[:] = items
         self._notify()
         return tuple(unclaimed_comments)
